@@ -92,9 +92,15 @@ def guarded(fn):
         raise
     except RecursionError as e:
         # keep the frames short: extract_tb over 1000 frames is slow
-        return {"ok": False, "cls": "RecursionError", "cfgerr": False,
-                "site": "recursion", "raised_in": None, "msg": str(e)[:100],
-                "lineno": "<absent>", "url": "<absent>", "colno": "<absent>"}
+        out = {"ok": False, "cls": "RecursionError", "cfgerr": False,
+               "site": "recursion", "raised_in": None, "msg": str(e)[:100],
+               "lineno": "<absent>", "url": "<absent>", "colno": "<absent>"}
+        from zcsim import world as _world0
+        w0 = _world0.CURRENT
+        if w0 is not None and getattr(w0, "foreign", None):
+            # (a simulator datatype raised it on its own account)
+            out["is_foreign"] = any(e is r for r in w0.foreign)
+        return out
     except Exception as e:
         from zcsim import world as _world
         if _world.CURRENT is not None:
